@@ -35,6 +35,7 @@ type World struct {
 	ghostMade   bool                                                        // the primary was created with the unmodelled column "ghost"
 	ghostLive   bool                                                        // the unmodelled column "ghost" exists on the primary right now
 	mergeYields bool                                                        // user merge functions yield to the scheduler (see mergeYield)
+	aggWatch    map[int]*aggWatch                                           // per thread: aggregate call in progress beside writers (C04 part B)
 	capFor      map[int]*filterCapture                                      // per thread: filter chain being captured (C04 part B)
 	raceSched   []int16                                                     // schedule taken by the race-mode scheduler
 	extra       []*Violation                                                // further race reports of the same run
@@ -226,6 +227,9 @@ func (w *World) applyBlock(t *MTxn, block uint32) {
 		return
 	}
 	changes := w.model.ApplyBlock(t, block)
+	for _, aw := range w.aggWatch {
+		aw.note(w.model, block)
+	}
 	if t.changes == nil {
 		t.changes = map[uint32][]Change{}
 	}
